@@ -59,7 +59,33 @@ def corruptions():
     c = copy.deepcopy(sm)
     c[-1]["pipes"][0][1] += 1
     out.append(("TraceSim", "recorded finish tick of the pipeline + 1", c, {"C06.FinishTick"}))
-    base = [("TraceExec", tr), ("TraceSched", st), ("TraceSim", sm)]
+    # a caller that goes on after a refusal: the state the refused call left behind is checked, and the trace goes on after it
+    rj = None
+    for seed in range(1, 200):
+        t = driver_exec.run_one(seed, 0, "reject")
+        if any(e["ev"] == "raise" and "after" in e and any(p["suspending"] or p["active"] for p in e["after"]["pools"]) for e in t):
+            rj = t
+            break
+    ia = next(i for i, e in enumerate(rj) if e["ev"] == "raise" and "after" in e and any(p["suspending"] or p["active"] for p in e["after"]["pools"]))
+    c = copy.deepcopy(rj)
+    c[ia]["after"]["pools"][0]["acpu"] += 1
+    out.append(("TraceExec", "free cpu after a refused call off by one", c, {"conf.C03.free", "C03.ConservationCpu"}))
+    c = copy.deepcopy(rj)
+    c[ia].pop("after")
+    del c[ia + 1:-1]          # the old behaviour: the trace ends at the refusal (still accepted)
+    out.append(("TraceExec", "(control) the same trace cut at the refusal", c, set()))
+    # a kill from outside: the operators it fails are in the log
+    kl = None
+    for seed in range(1, 400):
+        t = driver_exec.run_one(seed, 0, "susp")
+        if any(e["ev"] == "kill" for e in t):
+            kl = t
+            break
+    ik = next(i for i, e in enumerate(kl) if e["ev"] == "kill")
+    c = copy.deepcopy(kl)
+    c.pop(ik)
+    out.append(("TraceExec", "the kill event removed from the log", c, {"C02.RefuseIllegal", "C02.LegalMoves", "conf.C02.ost.round", "conf.C02.ost", "conf.C09.results", "C09.Accounting", "conf.C05.ctr", "conf.C02.ost.pre"}))
+    base = [("TraceExec", tr), ("TraceSched", st), ("TraceSim", sm), ("TraceExec", rj), ("TraceExec", kl)]
     return base, out
 
 
@@ -74,7 +100,7 @@ def run():
     for module, what, tr, expect in cases:
         m = _mon(module, [tr])
         fired = {v[2] for v in m.viols}
-        good = bool(fired & expect)
+        good = bool(fired & expect) if expect else not fired
         ok &= good
         print(f"  {module}: {what:60s} -> fired {sorted(fired)}  {'OK' if good else 'MISSING ' + str(sorted(expect))}")
     print("selftest " + ("passed: every corrupted field is reported, the recorded traces are accepted" if ok else "FAILED"))
